@@ -75,6 +75,20 @@ class Frame:
         self.ctx = ctx
 
 
+def form_is_linear(f):
+    """formula built from comparisons of linear expressions only (its truth depends on the constraint store alone)"""
+    if f[0] == 'cmp':
+        return True
+    if f[0] == 'not':
+        return form_is_linear(f[1])
+    if f[0] == 'and':
+        return form_is_linear(f[1]) and form_is_linear(f[2])
+    return f[0] == 'c'
+
+
+FN_TRAITS = ('std::ops::FnOnce', 'std::ops::FnMut', 'std::ops::Fn', 'core::ops::FnOnce', 'core::ops::FnMut', 'core::ops::Fn')
+
+
 class Interp:
     def __init__(self, facts, config=None):
         self.facts = facts
@@ -425,6 +439,20 @@ class Interp:
             if tag == 'arr':
                 if newval is not None:
                     return ('arr', v[1], ('unknown', Obj.fresh(), 'written')), newval
+                if v[2][0] == 'elems' and len(v[2][1]) == v[1]:
+                    els = v[2][1]
+                    if idx.is_const() and 0 <= idx.const < len(els):
+                        return v, els[idx.const]
+                    lo_hi = w.store.bounds(idx)
+                    if lo_hi[0] is not None and lo_hi[0] == lo_hi[1] and 0 <= lo_hi[0] < len(els):
+                        return v, els[lo_hi[0]]
+                    if all(e[0] == 'int' and e[1].is_const() for e in els):
+                        cs = [e[1].const for e in els]
+                        a = ATOMS.fresh('elem', min(cs), max(cs), defn=('arr_elem', v[2], idx))
+                        return v, ('int', Lin.atom(a))
+                    return v, ('top', None, 'arr-elem', '?')
+                if v[2][0] == 'repeat':
+                    return v, v[2][1]
                 a = ATOMS.fresh('byte', 0, 255, defn=('arr_elem', v[2], idx), key=('arr_elem', v[2], idx))
                 return v, ('int', Lin.atom(a))
             raise AnalysisError(f"index projection on {tag}")
@@ -576,6 +604,41 @@ class Interp:
                 return ('slice', Loc(root), Lin.c(0), w.mem[root][1])
             if to['k'] == 'str':
                 return ('top', reg_ty(ty), 'const', o['s'])
+        if k == 'array' and ty['of']['k'] == 'int' and o.get('item'):
+            # constant table of integers (e.g. `const LENGTHS: [usize; 4]`): the values the compiler evaluated
+            cj = self.facts.consts.get(o['item'])
+            if cj and isinstance(cj.get('alloc'), dict) and not cj['alloc'].get('ptrs'):
+                raw = bytes.fromhex(cj['alloc']['bytes'])
+                esz = ty['of']['bits'] // 8
+                if esz and len(raw) == esz * ty['len']:
+                    vals = []
+                    for i in range(ty['len']):
+                        x = int.from_bytes(raw[i * esz:(i + 1) * esz], 'little', signed=bool(ty['of'].get('signed')))
+                        vals.append(vint(x))
+                    return ('arr', ty['len'], ('elems', tuple(vals)))
+        if k == 'adt' and 'fields' in o:
+            # destructured constant (gse-mir): variant index + scalar fields
+            fs = []
+            ok = True
+            for fj in o['fields']:
+                fk = fj['ty']['k']
+                if 'bits' in fj and fk == 'int':
+                    bits, size = int(fj['bits']), fj['size']
+                    if fj['ty'].get('signed') and bits >= 1 << (8 * size - 1):
+                        bits -= 1 << (8 * size)
+                    fs.append(vint(bits))
+                elif 'bits' in fj and fk == 'bool':
+                    fs.append(vbool(int(fj['bits']) != 0))
+                elif fk == 'tuple' and not fj['ty']['of']:
+                    fs.append(UNIT)
+                else:
+                    ok = False
+            a = self.adt(ty['name'])
+            if ok and a:
+                if a['kind'] == 'enum' and 'variant' in o:
+                    return ('enum', ((o['variant'], tuple(fs)),))
+                if a['kind'] == 'struct':
+                    return ('agg', tuple(fs))
         if k == 'adt':
             a = self.adt(ty['name'])
             if a and a['kind'] == 'enum' and all(not v['fields'] for v in a['variants']) and 'bits' in o:
@@ -1091,8 +1154,26 @@ class Interp:
         if not alts:
             return False
         if len(alts) != len(v[1]):
-            self.write(w, loc, ('enum', alts))
+            new = ('enum', alts)
+            self.write(w, loc, new)
+            if self._has_identity(v):
+                # copies of the same value (a `Copy` enum passed on by value, moved into a helper, stored in a ghost) learn the
+                # same thing: payloads carry the identity of the unknown they came from, so structural equality means "same value"
+                for root, ov in list(w.mem.items()):
+                    if ov == v:
+                        w.mem[root] = new
+                    elif ov[0] == 'agg' and v in ov[1]:
+                        w.mem[root] = ('agg', tuple(new if x == v else x for x in ov[1]))
         return True
+
+    def _has_identity(self, v):
+        for _, fs in v[1]:
+            for x in fs:
+                if x[0] == 'arr' and x[2][0] in ('unknown', 'bytes_of'):
+                    return True
+                if x[0] == 'int' and not x[1].is_const():
+                    return True
+        return False
 
     def propagate_eq(self, w, a, b):
         """after a == b: when this pins a single atom to a constant, substitute it in values of
@@ -1382,10 +1463,18 @@ class Interp:
             fnj = f[1]
             rh = self.cfg.get('ret_hooks', {}).get(strip_generics(fnj.get('resolved') or fnj['name'])) or \
                 self.cfg.get('ret_hooks', {}).get(strip_generics(fnj['name']))
+        dh = None
+        if f[0] == 'fn' and self.cfg.get('dest_hooks'):
+            fnj = f[1]
+            dh = self.cfg['dest_hooks'].get(strip_generics(fnj.get('resolved') or fnj['name'])) or self.cfg['dest_hooks'].get(strip_generics(fnj['name']))
         for (w2, rv) in results:
             if rh:
                 rh(self, w2, frame, site, args, rv)
             self.assign(w2, frame, term['dest'], rv, site)
+            if dh:
+                cur = self.resolve_place(w2, frame, term['dest'])
+                if cur[0] == 'loc':
+                    dh(self, w2, frame, site, cur[1])      # where the result now lives (later matches refine that place)
             out.append((target, w2))
         return out
 
@@ -1407,11 +1496,22 @@ class Interp:
             impl = self.trait_impls.get(strip_generics(fn['name']))
             if impl:
                 body = self.facts.body(impl)
+        if body is not None and body.def_kind == 'Closure' and fn.get('trait') in FN_TRAITS:
+            return self.call_closure(w, frame, bb, site, body, args)
         if body is not None and not body.derived and key not in self.cfg.get('no_inline', ()):
             return self.inline(w, frame, bb, site, body, args)
+        if body is not None and body.def_kind == 'Closure' and fn.get('trait') in FN_TRAITS:
+            return self.call_closure(w, frame, bb, site, body, args)
         res = stdsum.dispatch(self, w, frame, site, fn, key, args, term)
         if res is not None:
             return res
+        # core/alloc function without a summary: interpret its (monomorphised) MIR; if it contains anything the
+        # interpreter has no transfer function for, undo the attempt and fall back to an unknown result
+        ebody = self.facts.ext.get(fn.get('ext_key')) if fn.get('ext_key') else None
+        if ebody is not None and not self.cfg.get('no_ext_inline'):
+            res = self.try_ext_inline(w, frame, bb, site, ebody, args, key)
+            if res is not None:
+                return res
         # unknown callee: result unknown, owned arguments are consumed by it
         self.note_unmodelled(f"call {key}")
         esc = []
@@ -1424,6 +1524,74 @@ class Interp:
             a = ATOMS.fresh(f"{key.split('::')[-1]}()", *int_range(dest_ty), defn=('call', key, tuple(args)))
             return [(w, ('int', Lin.atom(a)))]
         return [(w, ('top', reg_ty(dest_ty), ('call', key), 'ret'))]
+
+    def merge_cost(self, A, B):
+        """how much a join of A and B is expected to lose (heuristic used only to choose which worlds to merge first)"""
+        cost = 0
+        for c in A.store.cons ^ B.store.cons:
+            # a bound on one value survives a merge as an interval / a hole; a relation between two lengths (why a branch was
+            # taken) does not
+            heavy = len(c.terms) >= 2
+            if heavy:
+                heavy = False
+                for a_, _ in c.terms:
+                    d_ = ATOMS.info(a_).defn
+                    if not (d_ and d_[0] in ('arr_elem', 'elem', 'be', 'bits_hi', 'bits_mid', 'bits_lo')):
+                        heavy = True
+                        break
+            cost += 4 if heavy else 1
+        if A.mem is not B.mem:
+            for r_, v_ in A.mem.items():
+                if B.mem.get(r_) != v_:
+                    cost += 2
+        return cost
+
+    def call_closure(self, w, frame, bb, site, body, args):
+        """<closure as Fn*>::call*(closure, (a, b, ..)): the body takes (env, a, b, ..); an Fn/FnMut closure called through
+        call_once receives its environment by reference"""
+        env = args[0]
+        tup = args[1] if len(args) > 1 else UNIT
+        if tup[0] == 'agg':
+            rest = list(tup[1])
+        elif tup == UNIT:
+            rest = []
+        else:
+            tup = self.deep_expand(w, tup) if tup[0] == 'top' else tup
+            if tup[0] != 'agg':
+                raise AnalysisError('closure call with unknown argument tuple')
+            rest = list(tup[1])
+        w = w.fork()
+        if body.locals[1]['ty']['k'] == 'ref' and env[0] not in ('ref',):
+            root = ('O', Obj.fresh())
+            w.mem[root] = env
+            env = ('ref', Loc(root))
+        return self.inline(w, frame, bb, site, body, [env] + rest)
+
+    def try_ext_inline(self, w, frame, bb, site, body, args, key):
+        snap = dict(self.unmodelled)
+        k = (frame.ctx, bb)
+        prefix = frame.ctx + ((frame.body.key, bb, 'via', self._inline_seq.get(k, 0)),)
+        self._ext_depth = getattr(self, '_ext_depth', 0) + 1
+        try:
+            rets = self.inline(w, frame, bb, site, body, args)
+            ok = self.unmodelled == snap
+        except AnalysisError as e:
+            if self._ext_depth > 1:
+                raise          # let the outermost attempt roll everything back
+            rets, ok = None, False
+        finally:
+            self._ext_depth -= 1
+        if ok:
+            self.stats['ext_inlined'] = self.stats.get('ext_inlined', 0) + 1
+            return rets
+        if self._ext_depth > 0:
+            raise AnalysisError(f"unsupported construct inside {key}")
+        n = len(prefix)
+        for rk in [rk for rk in self.records if rk[0][:n] == prefix]:
+            del self.records[rk]
+        self.unmodelled = snap
+        self.stats['ext_declined'] = self.stats.get('ext_declined', 0) + 1
+        return None
 
     def inline(self, w, frame, bb, site, body, args):
         if self.depth > 12:
@@ -1501,10 +1669,16 @@ class Interp:
             return ts if any(x is not None for x in ts) else None
         return None
 
-    def key_of(self, w, frame):
+    def key_of(self, w, frame, level=0):
+        """partition key; level 1 drops the ghosts, level 2 everything (used only when a block would otherwise
+        exceed max_worlds: the analysis degrades to coarser partitions instead of giving up)"""
         items = []
+        if level >= 2:
+            return ()
         for root, v in w.mem.items():
             if root[0] == 'G':
+                if level >= 1 or str(root[1]).startswith('~'):
+                    continue           # '~' ghosts are bookkeeping values that must not split partitions
                 t = self.tag(v)
                 if t is not None:
                     items.append((root, t))
@@ -1589,12 +1763,16 @@ class Interp:
             incoming = [(-1, w0)] if bb == 0 else []
             for p in pred.get(bb, ()):
                 incoming.extend((p, x) for x in edge_out.get((p, bb), ()))
-            groups = {}
-            edge_groups = {}
-            for p, w in incoming:
-                k = self.key_of(w, frame)
-                groups.setdefault(k, []).append(w)
-                edge_groups.setdefault(k, {}).setdefault(p, []).append(w)
+            for level in (0, 1, 2):
+                groups = {}
+                edge_groups = {}
+                for p, w in incoming:
+                    k = self.key_of(w, frame, level)
+                    groups.setdefault(k, []).append(w)
+                    edge_groups.setdefault(k, {}).setdefault(p, []).append(w)
+                if len(groups) <= self.max_worlds:
+                    break
+                self.stats['coarsened'] = self.stats.get('coarsened', 0) + 1
             inputs = []
             if bb in heads:
                 hs = head_state.setdefault(bb, {})
@@ -1628,14 +1806,25 @@ class Interp:
                             if not any(self.absorbs(e, N) for e in uniq):
                                 uniq.append(N)
                         buckets.append(uniq)
-                    total = sum(len(b_) for b_ in buckets)
                     jn = 0
+                    total = sum(len(b_) for b_ in buckets)
                     while total > self.kslots:
                         big = max(range(len(buckets)), key=lambda i: len(buckets[i]))
                         if len(buckets[big]) >= 2:
                             b_ = buckets[big]
-                            x = b_.pop()
-                            b_[-1], _ = self.join(b_[-1], x, (frame.fid, bb, jn), relational=self.cfg.get('relational_all', False))
+                            # merge the two worlds whose merge loses least: worlds that differ only in what they know about
+                            # data bytes (a byte-wise pattern leaves one world per byte) go first, worlds that differ in a
+                            # relation between lengths (the reason a branch was taken) last
+                            bi, bj = len(b_) - 2, len(b_) - 1
+                            if len(b_) > 2 and len(b_) <= 40:
+                                best = None
+                                for i_ in range(len(b_)):
+                                    for j_ in range(i_ + 1, len(b_)):
+                                        c_ = self.merge_cost(b_[i_], b_[j_])
+                                        if best is None or c_ < best:
+                                            best, bi, bj = c_, i_, j_
+                            x = b_.pop(bj)
+                            b_[bi], _ = self.join(b_[bi], x, (frame.fid, bb, jn), relational=self.cfg.get('relational_all', False))
                         else:
                             x = buckets.pop()
                             buckets[-1][-1], _ = self.join(buckets[-1][-1], x[0], (frame.fid, bb, jn), relational=self.cfg.get('relational_all', False))
@@ -1742,10 +1931,14 @@ class Interp:
                 mem[root] = nv
         # --- constraint stores
         def sub(c, S):
-            for a, e in S.items():
-                if c.coef(a):
-                    c = c.subst(a, e)
-            return c
+            # simultaneous substitution: on a back edge the N-side value of a join atom is expressed over that same atom
+            # (offset~ -> offset~ + n), so substituting one atom after the other would rewrite the replacement as well
+            if not any(a in S for a, _ in c.terms):
+                return c
+            out = Lin.c(c.const)
+            for a, k in c.terms:
+                out = out + (S[a].scale(k) if a in S else Lin.atom(a, k))
+            return out
         cands = set(E.store.cons)
         raw = set(E.store.cons)
         fresh = set(SE)            # locations joined for the first time at this point
@@ -1762,6 +1955,8 @@ class Interp:
             cands |= self.affine_relations(SE, SN, E.store, N.store)
             if relational:
                 cands |= self.template_candidates(E, N, SE, SN, point)
+            elif self.cfg.get('diff_templates'):
+                cands |= self.template_candidates(E, N, SE, SN, point, both_symbolic=True)
             if only_fresh:
                 # widening: constraints that do not involve a first-time location come from E only
                 cands = base_cands | set(c for c in cands if any(c.coef(a) for a in fresh))
@@ -1779,6 +1974,25 @@ class Interp:
                     cands.add(le(Lin.c(min(lo1, lo2)), Lin.atom(a)))
                 if hi1 is not None and hi2 is not None:
                     cands.add(le(Lin.atom(a), Lin.c(max(hi1, hi2))))
+        # template "not all bytes of this array are zero": byte-wise tests leave b0 >= 1 in one world and b0 = 0, b1 >= 1 in
+        # the next; what they have in common is sum(b_i) >= 1
+        groups = {}
+        for st_ in (E.store, N.store):
+            for c in st_.cons:
+                for a_, _ in c.terms:
+                    d_ = ATOMS.info(a_).defn
+                    if d_ and d_[0] == 'arr_elem':
+                        groups.setdefault(d_[1], set()).add(a_)
+        for content, ats in groups.items():
+            full = set(ats)
+            for i in range(16):
+                x = ATOMS.by_key.get(('arr_elem', content, Lin.c(i)))
+                if x is not None:
+                    full.add(x)
+            s_ = Lin.c(0)
+            for x in sorted(full):
+                s_ = s_ + Lin.atom(x)
+            cands.add(le(Lin.c(1), s_))
         kept = set()
         from lin import normalize
         jatoms = set(SE) | set(SN)
@@ -1801,8 +2015,40 @@ class Interp:
         store = Store(frozenset(kept))
         if store.cons != E.store.cons:
             changed = True
-        facts = {k: v for k, v in E.facts.items() if N.facts.get(k) == v}
-        if len(facts) != len(E.facts):
+        facts = {}
+        for A_, B_ in ((E, N), (N, E)):
+            for k, v in A_.facts.items():
+                if k in facts:
+                    continue
+                bv = B_.facts.get(k)
+                if bv == v:
+                    facts[k] = v
+                elif bv is None and isinstance(k, tuple) and k and k[0] == 'form' and form_is_linear(k[1]):
+                    # the other side does not carry the fact but its constraints decide the formula the same way
+                    try:
+                        if self.decide(B_, k[1]) == v:
+                            facts[k] = v
+                    except Exception:
+                        pass
+        # a value below a on one side and above b on the other lies outside (a, b) after the join: the one-variable
+        # disjunction `x < 0x100 || x >= 0x600` survives as the negated range formula
+        try:
+            ue, un = E.store._unary(), N.store._unary()
+            for x, (lo1, hi1) in ue.items():
+                if x in SE or x in SN or x not in un:
+                    continue
+                lo2, hi2 = un[x]
+                gap = None
+                if hi1 is not None and lo2 is not None and lo2 - hi1 >= 2:
+                    gap = (hi1 + 1, lo2)
+                elif hi2 is not None and lo1 is not None and lo1 - hi2 >= 2:
+                    gap = (hi2 + 1, lo1)
+                if gap:
+                    X = Lin.atom(x)
+                    facts[('form', ('and', ('cmp', 'le', Lin.c(gap[0]), X), ('cmp', 'lt', X, Lin.c(gap[1]))))] = False
+        except Exception:
+            pass
+        if facts != E.facts:
             changed = True
         J = World()
         J.mem = mem
@@ -1908,7 +2154,7 @@ class Interp:
                 return True
         return False
 
-    def template_candidates(self, E, N, SE, SN, point):
+    def template_candidates(self, E, N, SE, SN, point, both_symbolic=False):
         """loop-head templates  j - x <= c / j - x >= c  for the joined integers j against
         the integers x that have the same value on both sides (candidate loop invariants)"""
         out = set()
@@ -1926,8 +2172,8 @@ class Interp:
         from lin import _relevant
         for j, ne in SN.items():
             ee = SE.get(j, Lin.atom(j))
-            if not (ee.is_const() or ne.is_const()):
-                continue      # both sides symbolic: the substitution-derived candidates cover the relations
+            if not (ee.is_const() or ne.is_const()) and not both_symbolic:
+                continue      # both sides symbolic: the substitution-derived candidates cover most relations
             relN, atN = _relevant(N.store.cons, ne.atoms())
             relE, atE = _relevant(E.store.cons, ee.atoms())
             for x in stable:
@@ -1985,6 +2231,14 @@ class Interp:
                 return None
             ctx['SN'][existing] = b
             return a
+        if ctx['point'] not in self.head_points:
+            # two locations that hold the same value in E and the same value in N hold the same value after the join:
+            # share the join atom, so that equalities such as `header written == header computed` survive a merge
+            for j0, ea in ctx['SE'].items():
+                if ea == a and ctx['SN'].get(j0) == b:
+                    if j0 not in fam:
+                        fam.append(j0)
+                    return Lin.atom(j0)
         nm = self.path_name(path)
         j = ATOMS.fresh(nm, None, None, kind='join')
         fam.append(j)
